@@ -29,6 +29,38 @@ class Disconnection:
       self.__dict__["_disconnecting"] = False
     self._disconnect_unreferenced_placeholders(referenced)
 
+  def _dependent_lines_list(self):
+    lines = []
+    def collect(ref):
+      if isinstance(ref, gfapy.OrientedLine):
+        ref = ref.line
+      if isinstance(ref, gfapy.Line):
+        lines.append(ref)
+      elif isinstance(ref, list):
+        for elem in ref:
+          collect(elem)
+    if self._refs:
+      for k in self.__class__.DEPENDENT_LINES:
+        collect(self._refs.get(k, []))
+    return lines
+
+  def _transitive_dependents(self):
+    """The lines depending on the line, directly or not; deepest first."""
+    order = []
+    seen = set([id(self)])
+    stack = [(self, iter(self._dependent_lines_list()))]
+    while stack:
+      line, it = stack[-1]
+      nxt = next(it, None)
+      if nxt is None:
+        stack.pop()
+        if line is not self:
+          order.append(line)
+      elif id(nxt) not in seen:
+        seen.add(id(nxt))
+        stack.append((nxt, iter(nxt._dependent_lines_list())))
+    return order
+
   def _delete_reference(self, line, key):
     if key not in self._refs: return
     idx = None
@@ -110,9 +142,13 @@ class Disconnection:
       self._remove_backreference(self.get(k), k)
 
   def _disconnect_dependent_lines(self):
-    for k in self.__class__.DEPENDENT_LINES:
-      for ref in list(self._refs.get(k, [])):
-        self._disconnect_dependent_line(ref)
+    # the lines which depend on this one, transitively, are disconnected
+    # the deepest first: the recursion does not grow with the nesting depth
+    # (e.g. of groups of groups)
+    for line in self._transitive_dependents():
+      if line.is_connected() and \
+          not line.__dict__.get("_disconnecting", False):
+        line.disconnect()
 
   def _remove_nonfield_backreferences(self):
     for k in self.__class__.OTHER_REFERENCES:
